@@ -94,6 +94,15 @@ fn materialize(t: &Path, tree: &Value, relative_links: bool, lname: &str) {
     for (rel, node) in [("C", d("r-x")), ("C/d", d("r-x")), ("C/f", f("r--")), ("C/d/g", f("rw-")), ("L", d("rwx")), ("L/y", d("r-x")), ("L/y/f", f("r--")), ("L/y.toml", f("rw-"))] {
         mk(rel, &node, &mut modes);
     }
+    // a second sibling whose name merely extends the layer's name with a dot (<name>.z): its
+    // directory, metadata and SBOM files are as foreign to the layer as everything else outside
+    {
+        let z = format!("L/{lname}.z");
+        fs::create_dir_all(t.join(&z)).unwrap();
+        fs::write(t.join(&z).join("f"), "content of the dotted sibling\n").unwrap();
+        fs::write(t.join(format!("{z}.toml")), "[types]\nlaunch = true\n").unwrap();
+        fs::write(t.join(format!("{z}.sbom.cdx.json")), "{}").unwrap();
+    }
     // shortest paths first so that parents exist
     let mut own: Vec<(&String, &Value)> = tree.as_object().unwrap().iter().collect();
     own.sort_by_key(|(k, _)| k.len());
